@@ -318,7 +318,19 @@ impl Prop for C06 {
                     } else {
                         (0..nd).map(|_| rng.range(0, 12)).collect()
                     };
-                    if m.dims.contains_key(name) {
+                    let b: Vec<i64> = if f.is_none() && rng.chance(1, 10) {
+                        // a negative bound declares nothing: some error, and the array is as it was
+                        let mut b = b;
+                        let d = rng.usize(nd);
+                        b[d] = -1;
+                        b
+                    } else {
+                        b
+                    };
+                    if b.iter().any(|x| *x < 0) {
+                        any_err_ok = true;
+                        must_err_any = true;
+                    } else if m.dims.contains_key(name) {
                         expect_err = Some("REDIMENSIONED ARRAY");
                     } else if m.dims_unknown(name) {
                         any_err_ok = true;
@@ -437,7 +449,7 @@ impl Prop for C06 {
                 ctx.violation(
                     "wrong-outcome",
                     "vars:outcome:subscript-beyond-integer-range",
-                    &format!("{:?}: a subscript above 32767 must be refused, but no error was reported", stmt),
+                    &format!("{:?}: a subscript above 32767 or a negative bound must be refused, but no error was reported", stmt),
                     &text,
                 );
                 return;
